@@ -848,7 +848,7 @@ def run(ctx: Ctx) -> None:
             shape(b, ctx)
             ctx.count("corpus:" + shape.__name__)
             _one(ctx, b.prog, b.ids, rep % 2 == 0, sample=False, blocks=False)
-    for i in range(ctx.n(32, 600)):
+    for i in range(ctx.n(32, 400)):
         if ctx.out_of_time():
             break
         prog, ids = gen_family(ctx, rng)
@@ -856,7 +856,7 @@ def run(ctx: Ctx) -> None:
         ctx.count("family:with-model" if model else "family:oracle-only")
         _one(ctx, prog, ids, model, sample=i == 1, blocks=False)
     # 2. random tiered histories
-    for i in range(ctx.n(60, 2500)):
+    for i in range(ctx.n(60, 1500)):
         if ctx.out_of_time():
             break
         prog, ids = gen_blocks(ctx, rng)
@@ -864,7 +864,7 @@ def run(ctx: Ctx) -> None:
         ctx.count("blocks:with-model" if model else "blocks:oracle-only")
         _one(ctx, prog, ids, model, sample=False, blocks=True)
     # 3. flat random histories
-    for i in range(ctx.n(120, 4000)):
+    for i in range(ctx.n(120, 2400)):
         if ctx.out_of_time():
             break
         prog, ids = gen_history(ctx, rng)
